@@ -496,6 +496,17 @@ pub fn with_shape<R>(shape: &Shape, f: impl FnOnce() -> R) -> (R, DecodeLog) {
     (r, log)
 }
 
+/// Clear the per-thread decode log (for callers that make several decodes inside one with_shape).
+pub fn reset_log() {
+    LOG.with(|l| *l.borrow_mut() = DecodeLog::default());
+    ZW_BUDGET.with(|b| b.set(0));
+}
+
+/// Take the per-thread decode log accumulated since the last reset.
+pub fn take_log() -> DecodeLog {
+    LOG.with(|l| std::mem::take(&mut *l.borrow_mut()))
+}
+
 /// A value of the thread's current shape. Implements `Deserialize` for every lifetime, so it
 /// can stand for `T` in `from_bytes::<T>`, `from_io::<T, _>`, `feed::<T>`, ...
 #[derive(Debug, Clone, PartialEq)]
